@@ -305,3 +305,95 @@ CASES += [
          new="""                let var = SddPtr::Var(vlabel, val);
                 bdd = self.and(bdd, var);"""),
 ]
+
+VOF = "src/repr/var_order.rs"
+CASES += [
+    dict(name="rh-lookup-le", file=BT, rule="RH", props=["C02", "C04"], expect="get_by_hash:early-exit",
+         old="""                if cur_itm.psl < psl {
+                    return None;
+                }""",
+         new="""                if cur_itm.psl <= psl {
+                    return None;
+                }"""),
+    dict(name="rh-insert-step-two", file=BT, rule="RH", props=["C02"], expect="get_or_insert_by_hash:step",
+         old="""                psl += 1;
+                pos = (pos + 1) % self.cap; // wrap to the beginning of the array
+            } else {
+                // this element is unique, so place it in the current spot""",
+         new="""                psl += 1;
+                pos = (pos + 2) % self.cap; // wrap to the beginning of the array
+            } else {
+                // this element is unique, so place it in the current spot"""),
+    dict(name="rh-home-before-grow", file=BT, rule="RH", props=["C02", "C04"], expect="home-after-grow",
+         old="""        if (self.len + 1) as f64 > (self.cap as f64 * LOAD_FACTOR) {
+            self.grow();
+        }
+
+        // the current index into the array
+        let mut pos: usize = (hash as usize) % self.cap;""",
+         new="""        // the current index into the array
+        let mut pos: usize = (hash as usize) % self.cap;
+        if (self.len + 1) as f64 > (self.cap as f64 * LOAD_FACTOR) {
+            self.grow();
+        }
+"""),
+    dict(name="vo-get-wrong-table", file=VOF, rule="VO", props=["C01", "C02", "C14"], expect="VarOrder::get",
+         old="""        self.var_to_pos[var.value() as usize]
+    }""", new="""        self.pos_to_var[var.value() as usize]
+    }"""),
+    dict(name="wi-advance-after-remove", file=UP, rule="WI", props=["C09"], expect="index-progress",
+         old="""                // do not increment watcher_idx (since we decreased the total number of watchers, we have made progress)""",
+         new="""                watcher_idx += 1;"""),
+    dict(name="law-boolean-xor", file="src/util/semirings/boolean.rs", rule="LAW", props=["C13", "C07"], expect="BooleanSemiring:add",
+         old="""        BooleanSemiring(self.0 || rhs.0)""", new="""        BooleanSemiring(self.0 ^ rhs.0)"""),
+    dict(name="law-eu-product-rule", file="src/util/semirings/expectation.rs", rule="LAW", props=["C13"], expect="ExpectedUtility:",
+         old="""        let eu: f64 = (self.0 * rhs.1) + (self.1 * rhs.0);""", new="""        let eu: f64 = (self.0 * rhs.1) + (self.1 * rhs.1);"""),
+    dict(name="law-complex-sign", file="src/util/semirings/complex.rs", rule="LAW", props=["C13"], expect="Complex:",
+         old="""            re: self.re * rhs.re - self.im * rhs.im,""", new="""            re: self.re * rhs.re + self.im * rhs.im,"""),
+    dict(name="law-poly-overwrite", file="src/util/semirings/polynomial_semiring_implementation.rs", rule="LAW", props=["C13"], expect="mul-convolution",
+         old="""                    new_coeffs[i + j] =
+                        new_coeffs[i + j] + (self.coefficients[i] * rhs.coefficients[j]);""",
+         new="""                    new_coeffs[i + j] = self.coefficients[i] * rhs.coefficients[j];"""),
+    dict(name="law-eu-choose-smaller", file="src/util/semirings/expectation.rs", rule="LAW", props=["C13"], expect="ExpectedUtility:choose",
+         old="""impl BBSemiring for ExpectedUtility {
+    fn choose(&self, arg: &ExpectedUtility) -> ExpectedUtility {
+        if self.1 > arg.1 {""",
+         new="""impl BBSemiring for ExpectedUtility {
+    fn choose(&self, arg: &ExpectedUtility) -> ExpectedUtility {
+        if self.1 < arg.1 {"""),
+    dict(name="ok-law-complex-commuted-factors", file="src/util/semirings/complex.rs", rule="LAW", props=["C13"], expect=None,
+         old="""            im: self.re * rhs.im + self.im * rhs.re,""", new="""            im: rhs.re * self.im + rhs.im * self.re,"""),
+    dict(name="cn-dedup-by-label", file="src/repr/cnf.rs", rule="CN", props=["C15", "C17"], expect="Cnf::new",
+         old="""                clause.dedup();""", new="""                clause.dedup_by_key(|a| a.label());"""),
+    dict(name="gl6-shared-memo", file=B, rule="GL", props=["C01", "C05"], expect="GL6",
+         old="""        let mut bdd = bdd;
+        for m in m.assignment_iter() {
+            bdd = self.condition(bdd, m.label(), m.polarity());
+        }""",
+         new="""        let mut bdd = bdd;
+        let mut cache = HashMap::new();
+        for m in m.assignment_iter() {
+            bdd = self.cond_with_alloc(bdd, m.label(), m.polarity(), &mut cache);
+        }"""),
+    dict(name="sl3-false-shortcut", file=B, rule="SL", props=["C08", "C19"], expect="return-as-is",
+         old="""            BddPtr::Reg(_) | BddPtr::PtrTrue | BddPtr::PtrFalse => {""",
+         new="""            BddPtr::PtrFalse => bdd,
+            BddPtr::Reg(_) | BddPtr::PtrTrue => {"""),
+    dict(name="nbinv-conditional-subtraction-off-by-one", file=FF, rule="NB", props=["C13", "C11"], expect="literal-reduced",
+         old="""        FiniteField::new((self.v + rhs.v) % P)""",
+         new="""        let s = self.v + rhs.v;
+        FiniteField { v: if s > P { s - P } else { s } }"""),
+    dict(name="ok-nbinv-conditional-subtraction", file=FF, rule="NB", props=["C13"], expect=None,
+         old="""        FiniteField::new((self.v + rhs.v) % P)""",
+         new="""        let s = self.v + rhs.v;
+        FiniteField { v: if s >= P { s - P } else { s } }"""),
+    dict(name="ser-cached-pointer", file="src/serialize/ser_bdd.rs", rule="CP", props=["C17", "C19"], expect="ser_bdd::BDDSerializer::serialize_helper:compl-flag",
+         old="""                    return SerBDDPtr::Ptr {
+                        index: *table.get(&node).unwrap(),
+                        compl: bdd.is_neg(),
+                    };""",
+         new="""                    return SerBDDPtr::Ptr {
+                        index: *table.get(&node).unwrap(),
+                        compl: false,
+                    };"""),
+]
